@@ -9,6 +9,7 @@ SPEC = {
         # real parallelism: several scrapes of one Metrics value at once (and the other side-by-side parties)
         {"pkg": "internal/corerad", "test": "TestVerifParallel", "newgo": True, "timeout": 600, "arch386": [], "env": {"VERIF_PAR": "scrapes"}},
         # the daemon end to end: the real main() in a child process, private network namespace, veth pair
+        {"pkg": "internal/corerad", "test": "TestVerifC20Ready", "newgo": True, "timeout": 300, "arch386": []},
         {"pkg": "cmd/corerad", "test": "TestVerifE2E", "timeout": 300, "arch386": []}],
     "known_classes": {1: "duplicate_series_labels"},
     "rule": "generated accepted TOML configurations (1-3 interface stanzas incl. names groups; advertise / monitor / idle; "
